@@ -39,9 +39,16 @@ def build(seed: int, pid: str, ncfg: int) -> Tuple[Dict[str, Any], List[Dict[str
     geo = P.gen_assembly(rs.sub("geo"), opts)
     geo = P.add_curved(rs.sub("curved"), geo, opts)
     geo = P.place_chops(rs.sub("chops"), geo, opts)
-    if pid == "C01" and rs.chance(opts.get("p_rewrite", 0.3)):
+    if rs.chance(opts.get("p_rewrite", 0.3)):
+        # the same assembled mesh is written a second time: as it is (C02: same file again), or after
+        # 1-3 vertex moves (C01: still consistent; C04: sizes realised on the new lengths)
         mr = rs.sub("rewrite")
-        geo["rewrite"] = [{"index": mr.randrange(8), "d": [round(mr.uniform(-0.22, 0.22), 4) for _ in range(3)]} for _ in range(mr.randint(1, 3))]
+        moves = [{"index": mr.randrange(8), "d": [round(mr.uniform(-0.22, 0.22), 4) for _ in range(3)]} for _ in range(mr.randint(1, 3))]
+        if pid == "C02" or (pid != "C01" and mr.chance(0.5)):
+            moves = []
+        if pid == "C04" and moves:
+            geo["curved"] = {}  # moved end points of declared arcs / polylines would change the curves themselves
+        geo["rewrite"] = moves
     programs = [P.make_program(geo, h64(seed, "cfg", c) % (1 << 31), identity=(c == 0)) for c in range(ncfg)]
     return geo, programs
 
@@ -88,6 +95,31 @@ def evaluate(pid: str, program: Dict[str, Any], scheds: List[Dict[str, Any]], pr
             except Exception as e:
                 vs.append(P.Violation("C06", "unparsable", repr(e)))
         vs += P.oracle_counts(program, asm, names, verdict, res, parsed)
+        moved = any(op["op"] == "move_vertex" for op in program["ops"])
+        if second is not None and second[0] is not None and not moved:
+            stats["plain_second_writes"] = stats.get("plain_second_writes", 0) + 1
+            if second[0] != res.writes[0][0]:
+                vs.append(P.Violation("C02", "second-write-differs", "the same assembled mesh written twice gives two different files: "
+                                      + _first_diff(res.writes[0][0], second[0])))
+        if len(res.writes) == 1 and res.outcome != "ok" and sum(1 for op in program["ops"] if op["op"] == "write") == 2 and not moved:
+            vs.append(P.Violation("C02", "second-write-fails", f"the first write succeeded, writing the same mesh again ends {res.outcome}: {res.exc_msg[:200]}"))
+        if second is not None and second[0] is not None and moved and pid == "C04" and parsed is not None:
+            # sizes on the second file, against the moved geometry
+            try:
+                from .. import foam as _foam
+                parsed2 = _foam.parse_blockmeshdict(second[0])
+                prog2 = moved_program(program, parsed)
+                if prog2 is not None:
+                    res2 = P.RunResult()
+                    res2.outcome = "ok"
+                    v4b, st4b = P.oracle_sizes(prog2, asm, names, verdict, res2, parsed2)
+                    for v in v4b:
+                        v.detail = "second write after vertex moves: " + v.detail
+                        v.key = v.key + ":second-write"
+                    vs += v4b
+                    stats["second_writes_sized"] = stats.get("second_writes_sized", 0) + 1
+            except Exception as e:
+                vs.append(P.Violation("C04", "second-write-unparsable", repr(e)))
         if second is not None and second[0] is not None:
             stats["second_writes_checked"] = stats.get("second_writes_checked", 0) + 1
             try:
@@ -135,6 +167,23 @@ def evaluate(pid: str, program: Dict[str, Any], scheds: List[Dict[str, Any]], pr
         stats["shape_programs"] = stats.get("shape_programs", 0) + 1
     return {"violations": viols, "runs": runs, "stats": stats, "klass": ("shape:" if shapes else "") + verdict.klass, "n_blocks": len(names),
             "families": verdict.n_families, "multi_source": verdict.multi_source}
+
+
+def moved_program(program, parsed_first):
+    """the program's point table after its move_vertex steps (vertex index -> point id through
+    the positions in the first written file)"""
+    vmap = P.map_vertices(parsed_first, program)
+    inv = {v: k for k, v in vmap.items()}
+    pts = {k: list(v) for k, v in program["points"].items()}
+    for op in program["ops"]:
+        if op["op"] == "move_vertex":
+            pid_ = inv.get(op["index"])
+            if pid_ is None:
+                return None
+            pts[pid_] = [pts[pid_][i] + op["d"][i] for i in range(3)]
+    out = dict(program)
+    out["points"] = pts
+    return out
 
 
 def family_counts(program, names, parsed) -> Dict[str, int]:
